@@ -36,4 +36,15 @@ OBLIGATIONS = [
      "defines": ['RXV_CONTRACTS_H="contracts_ss_exec.h"'], "entry": "h_exec_step", "replace": ["mulh", "smulh", "rotr", "randomx_reciprocal"], "unwind": 9,
      "checks": ["--bounds-check", "--pointer-check", "--div-by-zero-check", "--undefined-shift-check", "--signed-overflow-check"],
      "expect_classes": ["assertion"], "expect_min": 8},
+    {"name": "generator_skeleton_program_bounds_termination_rule_and_termination", "incdirs": INC, "tier": "attempt",
+     "files": [{"cxx": XS.SS_GENERATE, "out": "sg.c", "header": True,
+                "loops": [{"function": "generateSuperscalar", "expect_loops": 6,
+                           "loops": {"0": "RXV_GEN_OUTER_INVARIANT", "1": "RXV_GEN_INNER_INVARIANT", "4": "RXV_GEN_ASIC_INVARIANT"}}]}, "harness_ss_generate.c"],
+     "defines": ['RXV_CONTRACTS_H="contracts_ss_generate.h"'], "entry": "h_generate", "enforce": "generateSuperscalar",
+     "replace": ["rxv_db_fetchNext", "rxv_db_size", "rxv_db_count", "rxv_db_index", "rxv_cur_type", "rxv_cur_size", "rxv_cur_create", "rxv_cur_op", "rxv_cur_srcop", "rxv_cur_dstop",
+                 "rxv_cur_resultop", "rxv_cur_select_src", "rxv_cur_select_dst", "rxv_cur_dst", "rxv_cur_group", "rxv_cur_grouppar", "rxv_cur_emit", "rxv_mop_latency", "rxv_mop_size",
+                 "isMultiplication", "rxv_schedule_probe", "rxv_schedule_commit", "rxv_emitted"],
+     "loop_contracts": True, "pre_unwindset": ["generateSuperscalar.0:5", "generateSuperscalar.1:5"], "unwind": 30, "cbmc_flags": ["--object-bits", "12"],
+     "checks": ["--bounds-check", "--pointer-check", "--div-by-zero-check", "--undefined-shift-check", "--signed-overflow-check"],
+     "expect_classes": ["loop_invariant_step", "precondition", "postcondition"], "expect_min": 20, "timeout": 1800, "mem_gb": 16, "backend": "kissat"},
 ]
